@@ -31,8 +31,18 @@ def retval(code):
     return [False, True, None, 0, "", "x", 7, [], [0]][code]
 
 
+SIGNAL_NAMES = ["change", "postchange", "click"]       # the names the real widgets use come first
+TEXTS_M = ["", "a", "ab", "12"]                         # edit texts of the modelled widget stream (state = index)
+
+
 def sname(n):
-    return "sig%d" % n
+    return SIGNAL_NAMES[n] if 0 <= n < len(SIGNAL_NAMES) else "sig%d" % n
+
+
+def sid(name):
+    if name in SIGNAL_NAMES:
+        return SIGNAL_NAMES.index(name)
+    return int(name[3:]) if isinstance(name, str) and name.startswith("sig") and name[3:].isdigit() else -1
 
 
 def oz(v):
@@ -79,10 +89,16 @@ class CB:
         for a in args:
             if isinstance(a, W):
                 flat += [1, a.i]
-            elif isinstance(a, int) and not isinstance(a, bool):
+            elif isinstance(a, bool):
+                flat += [0, int(a)]                      # a CheckBox state
+            elif isinstance(a, int):
                 flat += [0, a]
+            elif isinstance(a, str) and a in TEXTS_M:
+                flat += [0, TEXTS_M.index(a)]            # an Edit text
+            elif any(a is w for w in run.senders):
+                flat += [2, [i for i, w in enumerate(run.senders) if a is w][0]]     # the sending widget itself
             else:
-                flat += [2, 0]
+                flat += [3, 0]
         if run.ncalls >= run.case["maxcalls"]:
             raise Runaway()
         run.ncalls += 1
@@ -107,21 +123,33 @@ def errcode(e):
 def cls_spec(c):
     """a sender class of a case: truthiness, parent class indexes (in base order; earlier classes only), declared
     with the MetaSignals metaclass or not, the `signals` list of its body (None: no such attribute).
-    An int is a plain class without bases."""
+    An int is a plain class without bases.  {"w": kind, "sig": [...]} is a real urwid widget class."""
     if isinstance(c, dict):
         p = c.get("p", -1)
         parents = [x for x in p if x >= 0] if isinstance(p, list) else ([p] if p >= 0 else [])
-        return bool(c.get("t", 1)), parents, bool(c.get("m", 0)), c.get("sig")
+        return bool(c.get("t", 1)), parents, bool(c.get("m", 0)) or "w" in c, c.get("sig")
     return bool(c), [], False, None
 
 
+def shadow_classes(specs):
+    """the same hierarchy built from plain classes: Python's own MRO and attribute lookup, no urwid"""
+    shadow = []
+    for c in specs:
+        _, parents, _, _ = cls_spec(c)
+        shadow.append(type("Shadow", tuple(shadow[p] for p in parents), {}))
+    return shadow
+
+
+def mro_indexes(specs):
+    sh = shadow_classes(specs)
+    return [[sh.index(k) for k in c.__mro__[1:] if k in sh] for c in sh]
+
+
 def meta_info(specs):
-    """For classes created through urwid.MetaSignals (directly, or by subclassing such a class): the names the
-    metaclass registers at class creation = the class body's `signals` followed by the `signals` attribute of each
-    base class in base order (whatever the base's metaclass), without duplicates (the metaclass documents:
-    'register the list of signals in the class variable signals, including signals in superclasses').  A class
-    registered once keeps its list: creating further subclasses does not change it.
-    The attribute lookups follow Python's own MRO: they are done on a shadow hierarchy of plain classes.
+    """Reference computation (independent of urwid and of the Coq model, used by the oracle only): for classes
+    created through urwid.MetaSignals (directly, or by subclassing such a class) the names the metaclass
+    registers at class creation = the class body's `signals` followed by the `signals` attribute of each base
+    class in base order (whatever the base's metaclass), without duplicates.
     Returns {class index: names} in class order."""
     shadow, is_meta, out = [], {}, {}
     for i, c in enumerate(specs):
@@ -135,8 +163,6 @@ def meta_info(specs):
             if sig is not None:
                 ns["signals"] = own + inherited      # the list of the class body is extended in place
         elif sig is not None:
-            # a plain class: nothing is registered; a `signals` list in its body is just a class attribute
-            # (which the metaclass of a subclass will read)
             ns["signals"] = list(sig)
         shadow.append(type("Shadow", tuple(shadow[p] for p in parents), ns))
     return out
@@ -145,25 +171,32 @@ def meta_info(specs):
 def hierarchy_ok(specs):
     """can Python build these classes at all (consistent method resolution order)?"""
     try:
-        meta_info(specs)
+        shadow_classes(specs)
         return True
     except TypeError:
         return False
 
 
-def mk_classes(specs, urwid):
+def mk_classes(specs, urwid, created=None):
+    """build the sender classes; created(i, cls, is_meta) is called right after class i exists"""
     import types
     classes = []
-    for c in specs:
+    for i, c in enumerate(specs):
         truthy, parents, m, sig = cls_spec(c)
-        ns = {}
-        if not truthy:
-            ns["__bool__"] = lambda self: False
-        if sig is not None:
-            ns["signals"] = [sname(n) for n in sig]
-        bases = tuple(classes[p] for p in parents)
-        kw = {"metaclass": urwid.MetaSignals} if m else {}
-        classes.append(types.new_class("Sender", bases, kw, lambda d, ns=ns: d.update(ns)))
+        if isinstance(c, dict) and "w" in c:
+            cls = {"button": urwid.Button, "checkbox": urwid.CheckBox, "edit": urwid.Edit}[c["w"]]
+        else:
+            ns = {}
+            if not truthy:
+                ns["__bool__"] = lambda self: False
+            if sig is not None:
+                ns["signals"] = [sname(n) for n in sig]
+            bases = tuple(classes[p] for p in parents)
+            kw = {"metaclass": urwid.MetaSignals} if m else {}
+            cls = types.new_class("Sender", bases, kw, lambda d, ns=ns: d.update(ns))
+        classes.append(cls)
+        if created is not None:
+            created(i, cls, isinstance(cls, urwid.MetaSignals))
     return classes
 
 
@@ -175,10 +208,27 @@ class Run:
         self.depth = 0
         self.ncalls = 0
         self.fuel = case["fuel"]
-        self.classes = mk_classes(case["classes"], sig)
-        for c, names in meta_info(case["classes"]).items():
-            self.trace.append([1, c, len(names)] + list(names))     # registered by the metaclass
-        self.senders = [self.classes[c]() for c in case["senders"]]
+        supported = getattr(getattr(sig.signals, "_signals", None), "_supported", {})
+
+        def created(i, cls, is_meta):
+            if is_meta:         # what the metaclass registered for the class, read when the class has just been made
+                names = [sid(x) for x in supported.get(cls, ())]
+                self.trace.append([1, i, len(names)] + names)
+
+        self.classes = mk_classes(case["classes"], sig, created)
+        self.own_classes = [k for k, c in zip(self.classes, case["classes"]) if not (isinstance(c, dict) and "w" in c)]
+        self.wkind = [case["classes"][c].get("w") if isinstance(case["classes"][c], dict) else None for c in case["senders"]]
+        w0 = case.get("wstates") or [0] * len(case["senders"])
+        self.senders = []
+        for c, k, v in zip(case["senders"], self.wkind, w0):
+            if k == "button":
+                self.senders.append(self.classes[c]("b"))
+            elif k == "checkbox":
+                self.senders.append(self.classes[c]("c", bool(v)))
+            elif k == "edit":
+                self.senders.append(self.classes[c]("", TEXTS_M[v]))
+            else:
+                self.senders.append(self.classes[c]())
         self.reg = {}
         self.wr = {}
         self.keys = []
@@ -248,6 +298,28 @@ class Run:
                 raise
             self.depth -= 1
             t.append([6, 1 if r is True else 0 if r is False else 3 if r else 2])
+        elif k in ("click", "setstate", "settext"):
+            s = op[1]
+            v = 0 if k == "click" else op[2]
+            t.append([13, {"click": 0, "setstate": 1, "settext": 2}[k], s, v])
+            if self.depth >= self.fuel:
+                t.append([14, -3])
+                raise RecursionError("harness depth bound")
+            self.depth += 1
+            w = self.senders[s]
+            try:
+                if k == "click":
+                    w.keypress((15,), "enter") if (len(t) % 2) else w.mouse_event((15,), "mouse press", 1, 1, 0, True)
+                elif k == "setstate":
+                    w.set_state(bool(v))
+                else:
+                    w.set_edit_text(TEXTS_M[v])
+            except (Exception, Runaway) as e:
+                self.depth -= 1
+                t.append([14, errcode(e)])
+                raise
+            self.depth -= 1
+            t.append([14, 0])
         elif k == "kill":
             o = op[1]
             if o not in self.reg:
@@ -284,6 +356,17 @@ class Run:
     def dead(self):
         return [o for o in sorted(self.wr) if self.wr[o]() is None]
 
+    def wstate(self):
+        out = []
+        for k, w in zip(self.wkind, self.senders):
+            if k == "checkbox":
+                out.append(1 if w.get_state() is True else 0 if w.get_state() is False else -1)
+            elif k == "edit":
+                out.append(TEXTS_M.index(w.get_edit_text()) if w.get_edit_text() in TEXTS_M else -1)
+            else:
+                out.append(0)
+        return out
+
 
 def canon_trace(trace):
     """several objects dying at one point die in an unspecified order: sort each run of deaths"""
@@ -313,7 +396,9 @@ class C14(core.Check):
     allowed_axioms = set()
     design_ref = "DESIGN.md section 5, C14"
     technique = ("Coq theorems (induction over the emit snapshot, a monotone invariant over all operations and all "
-                 "handler scripts, induction over histories) about a hand-written executable model of urwid/signals.py; "
+                 "handler scripts, a safety invariant of the flattened call/death trace, induction over histories and over "
+                 "class-statement sequences) about a hand-written executable model of urwid/signals.py (Signals, MetaSignals) "
+                 "and of the widget methods that emit (Button, CheckBox.set_state, Edit.set_edit_text); "
                  "extracted-model correspondence on event traces; independent reference oracle; weakref/gc heap probes")
     level_text = ("Proved in Coq for every state satisfying the connection-order invariant (which is proved to hold after "
                   "every history), every callback script table (scripts may connect, disconnect, emit and drop objects during "
@@ -327,11 +412,26 @@ class C14(core.Check):
                   "and changes nothing; the death of a weak argument removes exactly the handlers that reference it (any "
                   "sender, also one that is false in a boolean context).  Nested emits use fuel; theorems are about emits that return (out-of-fuel = RecursionError is an "
                   "exception and excluded explicitly).  The model is hand-written and tied to signals.py by an exact "
-                  "correspondence of event traces and final handler tables.  Registration is per exact class in model and theorems (unregistered_name_rejected looks only at the "
+                  "correspondence of event traces and final handler tables.  A connect is accepted IFF the name is registered for the sender's own class "
+                  "(connect_accepted_iff_registered, all states); what the MetaSignals metaclass registers is modelled "
+                  "(create_class: body list + getattr(base,'signals') per direct base along the given MRO, deduplicated) and "
+                  "proved for every sequence of class statements (metaclass_registration: unaffected by classes created later; "
+                  "registers own names, each base's visible attribute, nothing else); the docstring reading 'every name declared "
+                  "in the MRO is registered' is REFUTED (metaclass_inherits_every_declared_name_refuted: class D(C), C(A,B)). "
+                  "Weak-argument death at any point: for every history the flattened trace of calls and deaths is safe "
+                  "(no_call_after_weak_argument_death: after an object died no call receives it; every call passes all weak "
+                  "arguments of its handler).  Widgets as users of the machinery, modelled and proved: a Button activation "
+                  "emits 'click' once, CheckBox.set_state emits nothing when the state is unchanged and otherwise 'change' "
+                  "(widget, new) then 'postchange' (widget, old) exactly once each, Edit.set_edit_text always emits both (old text "
+                  "read after the first emit) - each emit with the exactly-once / order / arguments guarantees (emit_once), also "
+                  "under re-entrant handlers; tied by correspondence on real Button/CheckBox/Edit senders (kind wmodel). "
+                  "Registration is per exact class in model and theorems (unregistered_name_rejected looks only at the "
                   "sender's own class); sender classes that are subclasses of registered classes (single and multiple "
                   "inheritance), declared plainly or through the MetaSignals metaclass (whose registration = own signals + "
                   "those of the base classes is computed by the harness; base classes are exercised after their subclasses "
-                  "were created), are part of the correspondence stream.  ORACLE-ONLY widget-level stream (no model, no theorem): "
+                  "were created), are part of the correspondence stream.  ORACLE-ONLY widget-level stream (no model, no theorem; the widget "
+                  "constructors' callback shorthand, typed falsy user_data, RadioButton groups, IntEdit, typing into an Edit, "
+                  "ListBox body replacement): "
                   "Button / CheckBox / RadioButton constructor callbacks with user_data over a value set including falsy "
                   "non-None values (0, False, '', 0.0, ()), connect/disconnect by the same arguments, Edit/IntEdit change and "
                   "postchange, a Button subclass with extra signals, and ListBox body replacement followed by emits and "
@@ -351,6 +451,8 @@ class C14(core.Check):
             "drop-object/gc.collect; exhaustive scenarios: n<=3 (quick) or n<=4 (thorough) handlers x one or two scripted "
             "behaviours x positions x targets x weak-argument patterns x return patterns, plus random histories; "
             "class hierarchies A<-B<-C (plain / MetaSignals) x register_signal patterns x every (sender class, name); "
+            "modelled widget stream (kind wmodel): real Button/CheckBox/Edit senders, random connect/disconnect/emit/drop/"
+            "click/set_state/set_edit_text histories with scripted (re-entrant) handlers, compared with the model; "
             "widget-level stream (oracle only): every constructor-callback widget x 12 user_data values x activation kinds, "
             "random connect/disconnect/activate/drop-weak-argument sequences on buttons, check boxes, radio groups, edits; "
             "random ListBox body swaps over 2-3 walkers and 1-2 list boxes with emits/appends/pops on every walker; "
@@ -359,7 +461,9 @@ class C14(core.Check):
         "Coq 8.16.1 kernel (coqc; vm_compute used only for closed examples)",
         "extraction: ExtrOcamlBasic only; Z/positive stay Coq datatypes; OCaml 4.13.1",
         "tools/driver/driver.ml (int <-> Z conversion, line I/O)",
-        "hand-written model Model/Signals.v of urwid/signals.py (validated by the trace correspondence, not proved against Python)",
+        "hand-written model Model/Signals.v of urwid/signals.py (Signals, MetaSignals.__init__) and of Button._emit('click'), "
+        "CheckBox.set_state, Edit.set_edit_text (validated by the trace correspondence, not proved against Python)",
+        "Python's method resolution order (computed by Python on a shadow hierarchy and handed to the model as data)",
         "the harness instrumentation (callback objects, death-logging weakrefs, depth bound standing for the recursion limit)",
         "CPython reference counting and gc.collect() as the meaning of 'garbage-collected' (heap clause is oracle-only)",
         "Python oracle in harness/props/c14.py",
@@ -572,6 +676,7 @@ class C14(core.Check):
             trace = canon_trace(list(run.trace))
             final = run.final()
             dead = run.dead()
+            wstate = run.wstate()
             # ---- heap probe (oracle-only clause) ----
             sender_wr = [weakref.ref(o) for o in run.senders]
             run.senders = None
@@ -588,11 +693,11 @@ class C14(core.Check):
             sys.unraisablehook = old_hook
             sup = getattr(getattr(urwid.signals, "_signals", None), "_supported", None)
             if isinstance(sup, dict):
-                for c in run.classes:
+                for c in run.own_classes:
                     sup.pop(c, None)
             if was:
                 gc.enable()
-        return {"trace": trace, "final": final, "dead": dead,
+        return {"trace": trace, "final": final, "dead": dead, "wstate": wstate,
                 "heap": {"senders_kept_refcount": senders_kept_rc, "senders_kept": senders_kept, "objs_kept": objs_kept,
                          "unraisable": unraisable}}
 
@@ -613,24 +718,36 @@ class C14(core.Check):
             return [6, op[1]]
         if k == "gc":
             return [7]
+        if k == "click":
+            return [8, op[1], 2]
+        if k == "setstate":
+            return [9, op[1], 0, 1, op[2]]
+        if k == "settext":
+            return [10, op[1], 0, 1, op[2]]
         raise core.MachineryError("unknown op " + str(k))
 
     def encode(self, case):
         if case.get("kind") in ("widget", "listbox"):
             return None          # widget-level streams are judged by the oracle only
         l = [case["fuel"], case["nnames"], case["maxcalls"]]
-        l += [len(case["classes"])] + [1 if cls_spec(c)[0] else 0 for c in case["classes"]]
+        specs = case["classes"]
+        mros = mro_indexes(specs)
+        l.append(len(specs))
+        for c, mro in zip(specs, mros):
+            _, parents, m, sig = cls_spec(c)
+            l += [1 if m else 0, len(parents)] + list(parents) + [len(mro)] + list(mro)
+            l += [0] if sig is None else [1, len(sig)] + list(sig)
         l += [len(case["senders"])] + list(case["senders"])
+        w0 = case.get("wstates") or [0] * len(case["senders"])
+        l += [len(w0)] + list(w0)
         l += [len(case["objs"])] + [1 if c else 0 for c in case["objs"]]
         l.append(len(case["cbs"]))
         for ret, ops in case["cbs"]:
             l += [ret, len(ops)]
             for op in ops:
                 l += self.enc_op(op)
-        # classes declared through the MetaSignals metaclass are registered when they are created
-        pre = [["reg", c, names] for c, names in meta_info(case["classes"]).items()]
-        l.append(len(pre) + len(case["ops"]))
-        for op in pre + list(case["ops"]):
+        l.append(len(case["ops"]))
+        for op in case["ops"]:
             l += self.enc_op(op)
         return l
 
@@ -651,10 +768,12 @@ class C14(core.Check):
                 final.append([s, n, [next(it) for _ in range(ln)]])
             nd = next(it)
             dead = [next(it) for _ in range(nd)]
+            nw = next(it)
+            wstate = [next(it) for _ in range(nw)]
         except StopIteration:
             return {"malformed": ints[:50]}
         # the heap clause is not modelled: the expected value is the constant "nothing kept alive"
-        return {"trace": trace, "final": final, "dead": dead,
+        return {"trace": trace, "final": final, "dead": dead, "wstate": wstate,
                 "heap": {"senders_kept_refcount": [], "senders_kept": [], "objs_kept": [], "unraisable": []}}
 
     # ---------- oracle: a plain reference list per (sender, name), written from the property text ----------
@@ -803,7 +922,54 @@ class C14(core.Check):
         killed = set()
 
         def emits_on(sn):
-            return [f for f in stack if f["t"] == "emit" and f["sn"] == sn]
+            out = [f for f in stack if f["t"] == "emit" and f["sn"] == sn]
+            for f in stack:
+                if f["t"] == "wop" and sn in f["subs"]:
+                    out.append(f["subs"][sn])
+            return out
+
+        def emit_frame(sn, eargs):
+            start = [h for h in conn.get(sn, [])]
+            return {"t": "emit", "sn": sn, "eargs": eargs,
+                    "start": [h["key"] for h in start if h["state"] == "on"],
+                    "maybe": {h["key"] for h in start if h["state"] == "maybe"},
+                    "lost": {h["key"] for h in start if h["deadarg"]},
+                    "late": set(), "calls": [], "rets": [], "argvs": []}
+
+        def check_args(E, key, h, argv):
+            pre = [x for w in h["ws"] for x in (1, w)] + [x for u in h["us"] for x in (0, u)]
+            suf = [0, h["ua"]] if h["ua"] is not None else []
+            if E["eargs"] is None:
+                if argv[:len(pre)] != pre or (suf and argv[-2:] != suf):
+                    msgs.append(f"handler {key} received arguments {argv}, expected weak and user arguments {pre} first")
+                return
+            exp = pre + E["eargs"]
+            if h["ua"] is None:
+                if argv != exp:
+                    msgs.append(f"handler {key} received arguments {argv}, expected weak, user, emitted = {exp}")
+            else:
+                note("deprecated_user_arg_calls")
+                if argv[:len(exp)] != exp:
+                    msgs.append(f"handler {key} received arguments {argv}, expected to start with {exp}")
+
+        def judge_once(E):
+            must = [k for k in E["start"] if k not in E["lost"]]
+            mset = set(must)
+            got = [k for k in E["calls"] if k in mset]
+            if got != must:
+                for k in must:
+                    c = got.count(k)
+                    if c == 0:
+                        msgs.append(f"handler {k} stayed connected throughout the emit of {E['sn']} but was never called")
+                    elif c > 1:
+                        msgs.append(f"handler {k} stayed connected throughout the emit but was called {c} times")
+                if sorted(got) == sorted(must):
+                    msgs.append(f"handlers called in order {got}, connection order is {must}")
+            if E["lost"]:
+                note("emits_with_handler_lost_midway")
+
+        # reference state of the widget senders (None = not known any more)
+        wref = list(case.get("wstates") or [0] * len(cls_of))
 
         def lose(h):
             for f in emits_on(h["sn"]):
@@ -889,32 +1055,47 @@ class C14(core.Check):
                     note("disconnect_absent")
             elif t == 5:
                 sn = (ev[1], ev[2])
-                start = [h for h in conn.get(sn, [])]
-                stack.append({"t": "emit", "sn": sn, "args": ev[4:4 + ev[3]],
-                              "start": [h["key"] for h in start if h["state"] == "on"],
-                              "maybe": {h["key"] for h in start if h["state"] == "maybe"},
-                              "lost": {h["key"] for h in start if h["deadarg"]},
-                              "late": set(), "calls": [], "rets": []})
+                stack.append(emit_frame(sn, [x for a in ev[4:4 + ev[3]] for x in (0, a)]))
                 note("emits")
-                if len([f for f in stack if f["t"] == "emit"]) > 1:
+                if len([f for f in stack if f["t"] in ("emit", "wop")]) > 1:
                     note("nested_emits")
+            elif t == 13:
+                code, s, v = ev[1], ev[2], ev[3]
+                note("widget_methods")
+                for f in stack:
+                    if f["t"] == "wop" and f["s"] == s and code != 0 and f["code"] != 0:
+                        f["tainted"] = True        # re-entrant state change: what "old" is, is not observable
+                        wref[s] = None
+                frame = {"t": "wop", "code": code, "s": s, "v": v, "tainted": wref[s] is None and code != 0, "old": wref[s]}
+                if code == 0:
+                    frame["subs"] = {(s, 2): emit_frame((s, 2), [2, s])}
+                else:
+                    frame["subs"] = {(s, 0): emit_frame((s, 0), [2, s, 0, v]), (s, 1): emit_frame((s, 1), None)}
+                stack.append(frame)
             elif t == 7:
                 key, cb, argv = ev[1], ev[2], ev[4:]
                 top = stack[-1] if stack else None
                 stack.append({"t": "call", "key": key})
                 note("calls")
-                if top is None or top["t"] != "emit":
+                if top is None or top["t"] not in ("emit", "wop"):
                     msgs.append("a handler was called outside any emit")
                     continue
-                E = top
-                E["calls"].append(key)
                 h = allh.get(key)
                 if h is None:
                     msgs.append(f"a callback that was never connected was called (serial {key})")
                     continue
-                if h["sn"] != E["sn"]:
-                    msgs.append(f"emit of {E['sn']} called handler {key} connected to {h['sn']}")
-                    continue
+                if top["t"] == "wop":
+                    E = top["subs"].get(h["sn"])
+                    if E is None:
+                        msgs.append(f"a widget method of sender {top['s']} called handler {key} connected to {h['sn']}")
+                        continue
+                else:
+                    E = top
+                    if h["sn"] != E["sn"]:
+                        msgs.append(f"emit of {E['sn']} called handler {key} connected to {h['sn']}")
+                        continue
+                E["calls"].append(key)
+                E["argvs"].append(argv)
                 if h["deadarg"]:
                     msgs.append(f"handler {key} was called although one of its weak arguments had died")
                 if key in E["late"]:
@@ -923,15 +1104,8 @@ class C14(core.Check):
                     msgs.append(f"handler {key} was already disconnected when the emit started but was called")
                 elif key in E["lost"] and not h["deadarg"]:
                     note("called_after_disconnect_during_emit")
-                exp = [x for w in h["ws"] for x in (1, w)] + [x for u in h["us"] for x in (0, u)] \
-                    + [x for a in E["args"] for x in (0, a)]
-                if h["ua"] is None:
-                    if argv != exp:
-                        msgs.append(f"handler {key} received arguments {argv}, expected weak, user, emitted = {exp}")
-                else:
-                    note("deprecated_user_arg_calls")
-                    if argv[:len(exp)] != exp:
-                        msgs.append(f"handler {key} received arguments {argv}, expected to start with {exp}")
+                if top["t"] == "emit":
+                    check_args(E, key, h, argv)
             elif t == 8:
                 if stack and stack[-1]["t"] == "call":
                     stack.pop()
@@ -948,24 +1122,39 @@ class C14(core.Check):
                 if out < 0:
                     note("emit_aborted_by_exception")
                     continue
-                must = [k for k in E["start"] if k not in E["lost"]]
-                mset = set(must)
-                got = [k for k in E["calls"] if k in mset]
-                if got != must:
-                    for k in must:
-                        c = got.count(k)
-                        if c == 0:
-                            msgs.append(f"handler {k} stayed connected throughout the emit of {E['sn']} but was never called")
-                        elif c > 1:
-                            msgs.append(f"handler {k} stayed connected throughout the emit but was called {c} times")
-                    if sorted(got) == sorted(must):
-                        msgs.append(f"handlers called in order {got}, connection order is {must}")
+                judge_once(E)
                 if len(E["rets"]) == len(E["calls"]):
                     exp = any(E["rets"])
                     if (out in (1, 3)) != exp:
                         msgs.append(f"emit returned {out in (1, 3)} but the handlers' return values say {exp}")
-                if E["lost"]:
-                    note("emits_with_handler_lost_midway")
+            elif t == 14:
+                while stack and stack[-1]["t"] != "wop":
+                    stack.pop()
+                if not stack:
+                    msgs.append("widget method end without start")
+                    continue
+                F = stack.pop()
+                s, code, v = F["s"], F["code"], F["v"]
+                if ev[1] != 0:
+                    note("widget_method_aborted")
+                    if code != 0:
+                        wref[s] = None
+                    continue
+                if code != 0 and F["tainted"]:
+                    note("widget_method_reentrant")
+                    continue
+                emitted = code in (0, 2) or F["old"] != v       # CheckBox.set_state emits only on a state change
+                if code != 0:
+                    F["subs"][(s, 1)]["eargs"] = [2, s, 0, F["old"]]
+                    wref[s] = v
+                if not emitted:
+                    note("widget_state_unchanged")
+                    continue
+                note("widget_state_changes")
+                for E in F["subs"].values():
+                    judge_once(E)
+                    for key, argv in zip(E["calls"], E["argvs"]):
+                        check_args(E, key, allh[key], argv)
             elif t == 9:
                 if ev[2] == 0:
                     killed.add(ev[1])
@@ -1263,6 +1452,88 @@ class C14(core.Check):
     SIGNAMES = ["click", "change", "postchange", "extra", "nosuch"]
     TEXTS = ["", "a", "ab", "12", "7"]
 
+    # ---------- modelled widget stream: real Button / CheckBox / Edit senders ----------
+    WCLASSES = [{"w": "checkbox", "sig": [0, 1], "t": 1, "p": -1, "m": 1}, {"w": "button", "sig": [2], "t": 1, "p": -1, "m": 1},
+                {"w": "edit", "sig": [0, 1], "t": 1, "p": -1, "m": 1}]
+
+    def reentrant_cases(self):
+        """a handler that disconnects itself and then changes the state of its own widget again, while the widget
+        method that called it is still running; plain handlers on both signals record what they are told"""
+        for kind, cls, vals in (("checkbox", 0, [0, 1]), ("edit", 2, [0, 1, 2])):
+            opname = "setstate" if kind == "checkbox" else "settext"
+            for init in vals:
+                for v1 in vals:
+                    for v2 in vals:
+                        for asig in (0, 1):
+                            for how in ("dk", "dis"):
+                                # keys: 0 = plain on change, 1 = the re-entrant handler, 2 = plain on postchange
+                                undo = ["dk", 0, asig, 1] if how == "dk" else ["dis", 0, asig, 1, None, [], [8]]
+                                cbs = [[0, []], [1, [undo, [opname, 0, v2]]], [2, []]]
+                                ops = [["con", 0, 0, 0, None, [], [7]], ["con", 0, asig, 1, None, [], [8]],
+                                       ["con", 0, 1, 2, 5, [], [9]], [opname, 0, v1], [opname, 0, v1], [opname, 0, init]]
+                                yield {"kind": "wmodel", "fuel": 3, "nnames": 4, "maxcalls": 60,
+                                       "classes": [dict(c) for c in self.WCLASSES], "senders": [cls], "wstates": [init],
+                                       "objs": [], "cbs": cbs, "ops": ops}
+
+    def random_wop(self, rng, kinds, ncb, nobj, nkeys, in_script):
+        s = rng.randrange(len(kinds))
+        k = kinds[s]
+        names = {"checkbox": [0, 1], "edit": [0, 1], "button": [2]}[k]
+        r = rng.random()
+        us = lambda: [rng.randrange(3) for _ in range(rng.choice([0, 0, 1, 2]))]
+        ws = lambda: [rng.randrange(nobj) for _ in range(rng.choice([0, 0, 0, 1, 2]))] if nobj else []
+        ua = lambda: rng.choice([None, None, None, 0, 5])
+        if r < 0.28:
+            return ["con", s, rng.choice(names * 4 + [0, 1, 2, 3]), rng.randrange(ncb), ua(), ws(), us()]
+        if r < 0.36:
+            return ["dis", s, rng.choice(names), rng.randrange(ncb), ua(), ws(), us()]
+        if r < 0.44:
+            return ["dk", s, rng.choice(names), rng.randrange(max(1, nkeys + 2))]
+        if r < 0.50:
+            return ["emit", s, rng.choice(names), [rng.randrange(5)]]
+        if r < 0.57 and nobj:
+            return ["kill", rng.randrange(nobj)]
+        if r < 0.60:
+            return ["gc"]
+        if k == "button":
+            return ["click", s]
+        if k == "checkbox":
+            return ["setstate", s, rng.choice([0, 1])]
+        return ["settext", s, rng.randrange(len(TEXTS_M))]
+
+    def random_wmodel_case(self, rng, nops):
+        ns = rng.choice([1, 1, 2, 3])
+        cls = [rng.randrange(3) for _ in range(ns)]
+        kinds = [self.WCLASSES[c]["w"] for c in cls]
+        wst = [rng.randrange(2) if k == "checkbox" else rng.randrange(len(TEXTS_M)) if k == "edit" else 0 for k in kinds]
+        ncb = rng.choice([1, 2, 3, 4])
+        nobj = rng.choice([0, 1, 2, 3])
+        nkeys = nops // 2
+        cbs = []
+        for _ in range(ncb):
+            k = rng.choice([0, 0, 0, 1, 1, 2])
+            cbs.append([rng.randrange(9), [self.random_wop(rng, kinds, ncb, nobj, nkeys, True) for _ in range(k)]])
+        ops = []
+        for _ in range(nops):
+            if ops and rng.random() < 0.12:
+                prev = [o for o in ops if o[0] == "con"]
+                if prev:
+                    o = list(rng.choice(prev))
+                    o[0] = rng.choice(["con", "dis", "dis"])
+                    ops.append(o)
+                    continue
+            ops.append(self.random_wop(rng, kinds, ncb, nobj, nkeys, False))
+        for s, k in enumerate(kinds):
+            if k == "button":
+                ops.append(["click", s])
+            elif k == "checkbox":
+                ops += [["setstate", s, 1], ["setstate", s, 0]]
+            else:
+                ops += [["settext", s, 1], ["settext", s, 1]]
+        return {"kind": "wmodel", "fuel": rng.choice([1, 2, 2, 3]), "nnames": 4, "maxcalls": rng.choice([5, 60, 120]),
+                "classes": [dict(c) for c in self.WCLASSES], "senders": cls, "wstates": wst,
+                "objs": [rng.choice([0, 0, 1]) for _ in range(nobj)], "cbs": cbs, "ops": ops}
+
     def random_widget_case(self, rng):
         kinds = rng.choice([["button"], ["button"], ["button_sub"], ["checkbox"], ["checkbox"], ["radio", "radio", "radio"],
                             ["radio", "radio"], ["edit"], ["edit"], ["intedit"], ["button", "checkbox", "edit"]])
@@ -1355,6 +1626,9 @@ class C14(core.Check):
             yield self.random_widget_case(rng)
         for _ in range(400 if tier == "quick" else 4000):
             yield self.random_listbox_case(rng)
+        yield from self.reentrant_cases()
+        for _ in range(2500 if tier == "quick" else 30000):
+            yield self.random_wmodel_case(rng, rng.choice([3, 6, 10, 16]))
         if tier == "quick":
             yield from self.exhaustive(3, rng, 0.05)
             for _ in range(8000):
@@ -1370,6 +1644,7 @@ class C14(core.Check):
             yield self.random_case(rng, rng.choice([2, 3, 5, 8]))
             yield self.random_widget_case(rng)
             yield self.random_listbox_case(rng)
+            yield self.random_wmodel_case(rng, rng.choice([3, 6, 10]))
 
     def shrink_candidates(self, case):
         if case.get("kind") in ("widget", "listbox"):
